@@ -7,6 +7,7 @@
    No proofs in this file. *)
 From Coq Require Import String List NArith ZArith Bool.
 From J5V.lib Require Import Text Outcome.
+From J5V.gen Require TokensGen.
 From J5V.model Require Import BclLexer.
 Import ListNotations.
 Local Open Scope bool_scope.
@@ -60,20 +61,36 @@ Definition frag_end (f : fragment) : pos :=
 (* ---- walker monad -------------------------------------------------------------- *)
 Record wstate := mkW { wrest : list token; wprev : option token }.
 
+(* what an unexpectedTokenError carries besides the token: the expected types, or the fixed text *)
+Inductive werr := Expected (l : list ttype) | TooDeep.
+(* the expected sets are the arguments of the unexpectedToken / popType calls, read by the translator
+   (TokensGen.walker_expected: per function, in source order) *)
+Definition exp_of (fn : string) (i : nat) : list ttype :=
+  map ttype_of_code (nth i (match assoc_s TokensGen.walker_expected fn with Some l => l | None => [] end) []).
+Definition exp_ident := exp_of "popIdent" 0.
+Definition exp_elems := exp_of "popValue" 0.
+Definition exp_value := exp_of "popValue" 1.
+Definition exp_tag := exp_of "popTag" 0.
+Definition exp_end := exp_of "endStatement" 0.
+Definition exp_assign := exp_of "walkValueAssign" 0.
+Definition exp_plus_assign := exp_of "walkStatement" 0.
+Definition exp_header := exp_of "walkStatement" 1.
+Definition exp_fragment := exp_of "nextFragment" 0.
+
 Inductive wres (A : Type) :=
 | WOk (a : A) (s : wstate)
-| WErr (t : token) (s : wstate)        (* *unexpectedTokenError: only the offending token matters *)
+| WErr (t : token) (e : werr) (s : wstate)   (* *unexpectedTokenError: the offending token and what was expected *)
 | WPanic (site : string)
 | WFuel.
 Arguments WOk {A} a s.
-Arguments WErr {A} t s.
+Arguments WErr {A} t e s.
 Arguments WPanic {A} site.
 Arguments WFuel {A}.
 
 Definition wbind {A B} (m : wres A) (k : A -> wstate -> wres B) : wres B :=
   match m with
   | WOk a s => k a s
-  | WErr t s => WErr t s
+  | WErr t e s => WErr t e s
   | WPanic p => WPanic p
   | WFuel => WFuel
   end.
@@ -109,7 +126,7 @@ Definition pop_ident (s : wstate) : wres token :=
   wbind (pop_token s) (fun t s1 =>
     match as_ident t with
     | Some i => WOk i s1
-    | None => WErr t s1
+    | None => WErr t (Expected exp_ident) s1
     end).
 
 (* popReference *)
@@ -123,10 +140,10 @@ Fixpoint pop_reference_loop (fuel : nat) (acc : reference) (s : wstate) : wres r
       if tt_eqb (next_type s1) DOT
       then wbind (pop_token s1) (fun _ s2 => pop_reference_loop f acc' s2)
       else WOk acc' s1
-    | WErr t s1 =>
+    | WErr t e s1 =>
       match acc with
       | [] => WPanic "NewReference: index out of range [0] with length 0"
-      | _ => WErr t s1
+      | _ => WErr t e s1
       end
     | WPanic p => WPanic p
     | WFuel => WFuel
@@ -149,12 +166,13 @@ Fixpoint pop_elems (pv : wstate -> wres value) (fuel2 : nat) (opener : token) (a
         wbind (pop_token s2) (fun _ s3 => pop_elems pv f2 opener acc' s3)
       else if tt_eqb (next_type s2) RBRACK then
         wbind (pop_token s2) (fun _ s3 => WOk (VArr acc' (tstart opener) (current_pos s3)) s3)
-      else wbind (pop_token s2) (fun t s3 => WErr t s3))
+      else wbind (pop_token s2) (fun t s3 => WErr t (Expected exp_elems) s3))
   end.
 
 (* maxValueDepth: popValue refuses to open an array nested deeper than this (it recurses once per
    bracket; the bound keeps the recursion, hence the goroutine stack, bounded) *)
-Definition max_value_depth : N := 10000.
+(* const maxValueDepth, as the translator reads it from parser.go *)
+Definition max_value_depth : N := TokensGen.max_value_depth.
 
 Fixpoint pop_value (fuel : nat) (depth : N) (s : wstate) : wres value :=
   match fuel with
@@ -167,11 +185,11 @@ Fixpoint pop_value (fuel : nat) (depth : N) (s : wstate) : wres value :=
       wbind (pop_token s) (fun t s1 => WOk (VTok t (tstart t) (tend t)) s1)
     else if tt_eqb (next_type s) LBRACK then
       wbind (pop_token s) (fun opener s1 =>
-        if N.leb max_value_depth depth then WErr opener s1
+        if N.leb max_value_depth depth then WErr opener TooDeep s1
         else if tt_eqb (next_type s1) RBRACK then
           wbind (pop_token s1) (fun _ s2 => WOk (VArr [] (tstart opener) (current_pos s2)) s2)
         else pop_elems (pop_value f (N.succ depth)) (S (length (wrest s1))) opener [] s1)
-    else wbind (pop_token s) (fun t s1 => WErr t s1)
+    else wbind (pop_token s) (fun t s1 => WErr t (Expected exp_value) s1)
   end.
 Definition pop_value_top (s : wstate) : wres value := pop_value (S (length (wrest s))) 0%N s.
 
@@ -198,7 +216,7 @@ Definition pop_tag (s : wstate) : wres tag :=
       wbind (pop_reference s) (fun r s1 => WOk (mkTag mk mt (TagRef r) (ref_start r) (ref_end r)) s1)
     | STRING =>
       wbind (pop_value_top s) (fun v s1 => WOk (mkTag mk mt (TagVal v) (value_start v) (value_end v)) s1)
-    | _ => wbind (pop_token s) (fun t s1 => WErr t s1)
+    | _ => wbind (pop_token s) (fun t s1 => WErr t (Expected exp_tag) s1)
     end in
   match next_type s with
   | BANG => wbind (pop_token s) (fun t s1 => after_mark MarkBang (Some t) s1)
@@ -215,16 +233,16 @@ Definition end_statement (s : wstate) : wres (option comment) :=
       wbind (pop_token s1) (fun t2 s2 =>
         match ty t2 with
         | EOL | EOF => WOk c s2
-        | _ => WErr t2 s2
+        | _ => WErr t2 (Expected exp_end) s2
         end)
     | EOL | EOF => WOk None s1
-    | _ => WErr t s1
+    | _ => WErr t (Expected exp_end) s1
     end).
 
 (* walkValueAssign *)
 Definition walk_value_assign (r : reference) (app : bool) (s : wstate) : wres fragment :=
   wbind (pop_token s) (fun t s1 =>
-    if negb (tt_eqb (ty t) ASSIGN) then WErr t s1 else
+    if negb (tt_eqb (ty t) ASSIGN) then WErr t (Expected exp_assign) s1 else
     wbind (pop_value_top s1) (fun v s2 =>
       wbind (end_statement s2) (fun c s3 =>
         WOk (FAssign (mkAssign r app v (ref_start r) (value_end v) c)) s3))).
@@ -253,7 +271,7 @@ Definition walk_statement (s : wstate) : wres fragment :=
     if tt_eqb (next_type s1) ASSIGN then walk_value_assign r false s1
     else if tt_eqb (next_type s1) PLUS then
       wbind (pop_token s1) (fun _ s2 =>
-        if negb (tt_eqb (next_type s2) ASSIGN) then wbind (pop_token s2) (fun t s3 => WErr t s3)
+        if negb (tt_eqb (next_type s2) ASSIGN) then wbind (pop_token s2) (fun t s3 => WErr t (Expected exp_plus_assign) s3)
         else walk_value_assign r true s2)
     else
       wbind (tags_loop (S (length (wrest s1))) [] s1) (fun tags s2 =>
@@ -274,7 +292,7 @@ Definition walk_statement (s : wstate) : wres fragment :=
             WOk (FHeader (mkHeader r tags quals None false start e c)) s4)
         | EOL | EOF =>
           WOk (FHeader (mkHeader r tags quals None false start (current_pos s3) None)) s3
-        | _ => wbind (pop_token s3) (fun t s4 => WErr t s4)
+        | _ => wbind (pop_token s3) (fun t s4 => WErr t (Expected exp_header) s4)
         end))).
 
 (* nextFragment (None = no fragment: an empty line) *)
@@ -285,7 +303,7 @@ Definition next_fragment (s : wstate) : wres (option fragment) :=
   | COMMENT | BLOCK_COMMENT => wbind (pop_token s) (fun t s1 => WOk (Some (FComment t)) s1)
   | DESCRIPTION => wbind (pop_description s) (fun d s1 => WOk (Some (FDesc d)) s1)
   | IDENT | BOOL => wbind (walk_statement s) (fun f s1 => WOk (Some f) s1)
-  | _ => wbind (pop_token s) (fun t s1 => WErr t s1)
+  | _ => wbind (pop_token s) (fun t s1 => WErr t (Expected exp_fragment) s1)
   end.
 
 (* recoverError (collect-all): skip to and including the next EOL (or EOF) *)
@@ -298,7 +316,23 @@ Fixpoint skip_to_eol (fuel : nat) (s : wstate) : wres unit :=
     else wbind (pop_token s) (fun _ s1 => skip_to_eol f s1)
   end.
 
-Definition diag_of_tok (t : token) : diag := mkDiag (tstart t) (tend t).
+(* Token.String(): literals print their text cut to 20 bytes, operators their rune *)
+Definition tok_string (t : token) : list N :=
+  if is_literal (ty t) then
+    let b := utf8_encode (lit t) in
+    let short := if N.ltb (nth 0 TokensGen.token_string_ints 0%N) (N.of_nat (length b))
+                 then firstn (N.to_nat (nth 1 TokensGen.token_string_ints 0%N)) b ++ slit "token.go:String" 0 else b in
+    sprintf (slit "token.go:String" 1) [tt_text (ty t); short]
+  else if is_operator (ty t) then sprintf (slit "token.go:String" 3) [tt_text (ty t)]
+  else tt_text (ty t).
+(* unexpectedTokenError.msg() *)
+Definition walker_msg (t : token) (e : werr) : list N :=
+  match e with
+  | TooDeep => sprintf (slit "parser.go:popValue" 0) [N_to_dec max_value_depth]
+  | Expected [x] => sprintf (slit "errors.go:msg" 0) [tok_string t; tt_text x]
+  | Expected l => sprintf (slit "errors.go:msg" 1) [tok_string t; join_bytes (slit "errors.go:msg" 2) (map tt_text l)]
+  end.
+Definition diag_of_tok (t : token) (e : werr) : diag := mkDiag (tstart t) (tend t) (walker_msg t e).
 
 (* walkFragments: (fragments, diagnostics) *)
 Inductive walkout :=
@@ -317,15 +351,15 @@ Fixpoint walk_fragments_loop (fuel : nat) (ff : bool) (s : wstate) : walkout :=
       | WalkOk fs ds => WalkOk (match fo with Some fr => fr :: fs | None => fs end) ds
       | o => o
       end
-    | WErr t s1 =>
-      if ff then WalkOk [] [diag_of_tok t] else
+    | WErr t e s1 =>
+      if ff then WalkOk [] [diag_of_tok t e] else
       match skip_to_eol (S (length (wrest s1))) s1 with
       | WOk _ s2 =>
         match walk_fragments_loop f ff s2 with
-        | WalkOk fs ds => WalkOk fs (diag_of_tok t :: ds)
+        | WalkOk fs ds => WalkOk fs (diag_of_tok t e :: ds)
         | o => o
         end
-      | WErr _ _ => WalkPanic "skip_to_eol cannot fail"
+      | WErr _ _ _ => WalkPanic "skip_to_eol cannot fail"
       | WPanic p => WalkPanic p
       | WFuel => WalkFuel
       end
@@ -348,6 +382,9 @@ Inductive stmt :=
 Definition close_level (h : header) (body : list stmt) (parent : list stmt) : list stmt :=
   parent ++ [SBlock h body].
 
+Definition msg_close : list N := slit "parser.go:fragmentsToFile" 0.
+Definition msg_unclosed : list N := slit "parser.go:fragmentsToFile" 1.
+
 Fixpoint to_file_loop (fs : list fragment) (cur : list stmt) (stack : list (header * list stmt))
                       (errs : list diag) : list stmt * list (header * list stmt) * list diag :=
   match fs with
@@ -362,7 +399,7 @@ Fixpoint to_file_loop (fs : list fragment) (cur : list stmt) (stack : list (head
     | FComment _ => to_file_loop r cur stack errs
     | FClose t =>
       match stack with
-      | [] => to_file_loop r cur stack (errs ++ [mkDiag (tstart t) (tend t)])   (* unexpected close block *)
+      | [] => to_file_loop r cur stack (errs ++ [mkDiag (tstart t) (tend t) msg_close])
       | (h, parent) :: st => to_file_loop r (close_level h cur parent) st errs
       end
     end
@@ -380,7 +417,7 @@ Definition fragments_to_file (fs : list fragment) : list stmt * list diag :=
   let errs' := match stack with
                | [] => errs
                | _ => match last (map Some fs) None with
-                      | Some lf => errs ++ [mkDiag (frag_start lf) (frag_end lf)]   (* unclosed block at EOF *)
+                      | Some lf => errs ++ [mkDiag (frag_start lf) (frag_end lf) msg_unclosed]
                       | None => errs
                       end
                end in
@@ -410,7 +447,8 @@ Definition parse_file (input : list N) (ff : bool) : outcome presult :=
 
 (* ---- flattened position dumps (the observables of the correspondence) ----------- *)
 (* node kinds: 1 header/block 2 assign 3 desc 4 comment-fragment 5 close 6 reference 7 ident
-   8 tag 9 value(scalar) 10 value(array) 11 trailing comment 12 header description *)
+   8 tag 9 value(scalar) 10 value(array) 11 trailing comment 12 header description
+   15 TagValue.MarkToken 16 Description.Tokens[i] 17 Value.token (13/14 bracket a block body) *)
 Definition pnode : Type := (N * pos * pos)%type.
 
 Definition ref_nodes (r : reference) : list pnode :=
@@ -418,20 +456,27 @@ Definition ref_nodes (r : reference) : list pnode :=
 
 Fixpoint value_nodes (v : value) : list pnode :=
   match v with
-  | VTok _ s e => [(9%N, s, e)]
+  | VTok t s e => [(9%N, s, e); (17%N, tstart t, tend t)]       (* the value, and Value.token *)
   | VArr vs s e => (10%N, s, e) :: flat_map value_nodes vs
   end.
 
+(* TagValue.MarkToken, when there is a mark *)
+Definition mark_nodes (t : tag) : list pnode :=
+  match tmark_tok t with Some mt => [(15%N, tstart mt, tend mt)] | None => [] end.
 Definition tag_nodes (t : tag) : list pnode :=
-  (8%N, tgstart t, tgend t) ::
+  (8%N, tgstart t, tgend t) :: mark_nodes t ++
   match tbody t with TagRef r => ref_nodes r | TagVal v => value_nodes v end.
+
+(* a description (kind 3 as a statement, 12 in a header) and its Tokens *)
+Definition desc_nodes (k : N) (d : descr) : list pnode :=
+  (k, dsstart d, dsend d) :: map (fun t => (16%N, tstart t, tend t)) (dtoks d).
 
 Definition comment_nodes (c : option comment) : list pnode :=
   match c with Some c => [(11%N, cstart c, cend c)] | None => [] end.
 
 Definition header_nodes (h : header) : list pnode :=
   (1%N, hstart h, hend h) :: ref_nodes (htype h) ++ flat_map tag_nodes (htags h) ++ flat_map tag_nodes (hquals h)
-  ++ (match hdesc h with Some d => [(12%N, dsstart d, dsend d)] | None => [] end) ++ comment_nodes (hcomment h).
+  ++ (match hdesc h with Some d => desc_nodes 12 d | None => [] end) ++ comment_nodes (hcomment h).
 
 Definition assign_nodes (a : assign) : list pnode :=
   (2%N, astart a, aend a) :: ref_nodes (akey a) ++ value_nodes (avalue a) ++ comment_nodes (acomment a).
@@ -440,7 +485,7 @@ Definition frag_nodes (f : fragment) : list pnode :=
   match f with
   | FHeader h => header_nodes h
   | FAssign a => assign_nodes a
-  | FDesc d => [(3%N, dsstart d, dsend d)]
+  | FDesc d => desc_nodes 3 d
   | FComment t => [(4%N, tstart t, tend t)]
   | FClose t => [(5%N, tstart t, tend t)]
   end.
@@ -449,5 +494,5 @@ Fixpoint stmt_nodes (s : stmt) : list pnode :=
   match s with
   | SBlock h body => header_nodes h ++ (13%N, pos0, pos0) :: flat_map stmt_nodes body ++ [(14%N, pos0, pos0)]
   | SAssign a => assign_nodes a
-  | SDesc d => [(3%N, dsstart d, dsend d)]
+  | SDesc d => desc_nodes 3 d
   end.
